@@ -229,12 +229,21 @@ func vfc25Labels(rng *rand.Rand, shared []string, max int, allowEmptySet bool) [
 }
 
 func vfc25Spans(rng *rand.Rand) ([]prompb.BucketSpan, int) {
-	n := rng.Intn(3)
+	// 0..4 spans; about a quarter of them are empty (Length 0) - leading, in the middle or trailing - and keep
+	// their offset: the offset of an empty span still shifts every bucket that follows it
+	n := rng.Intn(5)
 	var out []prompb.BucketSpan
 	total := 0
 	for i := 0; i < n; i++ {
 		l := uint32(1 + rng.Intn(3))
-		out = append(out, prompb.BucketSpan{Offset: int32(rng.Intn(5)) - 1, Length: l})
+		if rng.Intn(4) == 0 {
+			l = 0
+		}
+		off := int32(rng.Intn(5))
+		if i == 0 {
+			off -= 2 // the first span may start at a negative bucket index
+		}
+		out = append(out, prompb.BucketSpan{Offset: off, Length: l})
 		total += int(l)
 	}
 	return out, total
